@@ -24,7 +24,8 @@
 (*   ho           the hand-off: UnlockHereAwait (Submit next), AwaitUnlock   *)
 (*                (batching: resubmit self, transfer to next), AwaitUnlockOn *)
 (*                (self already submitted; transfer or Submit next)          *)
-(*   guard forms  Guard / TryGuard / GuardSticky map onto the same           *)
+(*   guard forms  Guard / TryGuard / GuardSticky / a deferred guard's        *)
+(*                TryLock map onto the same                                  *)
 (*                operations (guard.hpp, guard_sticky.hpp)                   *)
 (*   fin_x        final_suspend -> SetResult of the coroutine's own future   *)
 (* The pool (harness VerifPool) performs no yaclib_std operation: submit    *)
@@ -48,6 +49,7 @@ ProgChars(s) ==
     [] s = "s" -> <<"s">>
     [] s = "t" -> <<"t">>
     [] s = "y" -> <<"y">>
+    [] s = "z" -> <<"z">>
     [] s = "aa" -> <<"a", "a">>
     [] s = "ab" -> <<"a", "b">>
     [] s = "ac" -> <<"a", "c">>
@@ -56,6 +58,7 @@ ProgChars(s) ==
     [] s = "as" -> <<"a", "s">>
     [] s = "at" -> <<"a", "t">>
     [] s = "ay" -> <<"a", "y">>
+    [] s = "az" -> <<"a", "z">>
     [] s = "ba" -> <<"b", "a">>
     [] s = "bb" -> <<"b", "b">>
     [] s = "bc" -> <<"b", "c">>
@@ -64,6 +67,7 @@ ProgChars(s) ==
     [] s = "bs" -> <<"b", "s">>
     [] s = "bt" -> <<"b", "t">>
     [] s = "by" -> <<"b", "y">>
+    [] s = "bz" -> <<"b", "z">>
     [] s = "ca" -> <<"c", "a">>
     [] s = "cb" -> <<"c", "b">>
     [] s = "cc" -> <<"c", "c">>
@@ -72,6 +76,7 @@ ProgChars(s) ==
     [] s = "cs" -> <<"c", "s">>
     [] s = "ct" -> <<"c", "t">>
     [] s = "cy" -> <<"c", "y">>
+    [] s = "cz" -> <<"c", "z">>
     [] s = "ga" -> <<"g", "a">>
     [] s = "gb" -> <<"g", "b">>
     [] s = "gc" -> <<"g", "c">>
@@ -80,6 +85,7 @@ ProgChars(s) ==
     [] s = "gs" -> <<"g", "s">>
     [] s = "gt" -> <<"g", "t">>
     [] s = "gy" -> <<"g", "y">>
+    [] s = "gz" -> <<"g", "z">>
     [] s = "ha" -> <<"h", "a">>
     [] s = "hb" -> <<"h", "b">>
     [] s = "hc" -> <<"h", "c">>
@@ -88,6 +94,7 @@ ProgChars(s) ==
     [] s = "hs" -> <<"h", "s">>
     [] s = "ht" -> <<"h", "t">>
     [] s = "hy" -> <<"h", "y">>
+    [] s = "hz" -> <<"h", "z">>
     [] s = "sa" -> <<"s", "a">>
     [] s = "sb" -> <<"s", "b">>
     [] s = "sc" -> <<"s", "c">>
@@ -96,6 +103,7 @@ ProgChars(s) ==
     [] s = "ss" -> <<"s", "s">>
     [] s = "st" -> <<"s", "t">>
     [] s = "sy" -> <<"s", "y">>
+    [] s = "sz" -> <<"s", "z">>
     [] s = "ta" -> <<"t", "a">>
     [] s = "tb" -> <<"t", "b">>
     [] s = "tc" -> <<"t", "c">>
@@ -104,6 +112,7 @@ ProgChars(s) ==
     [] s = "ts" -> <<"t", "s">>
     [] s = "tt" -> <<"t", "t">>
     [] s = "ty" -> <<"t", "y">>
+    [] s = "tz" -> <<"t", "z">>
     [] s = "ya" -> <<"y", "a">>
     [] s = "yb" -> <<"y", "b">>
     [] s = "yc" -> <<"y", "c">>
@@ -112,11 +121,22 @@ ProgChars(s) ==
     [] s = "ys" -> <<"y", "s">>
     [] s = "yt" -> <<"y", "t">>
     [] s = "yy" -> <<"y", "y">>
+    [] s = "yz" -> <<"y", "z">>
+    [] s = "za" -> <<"z", "a">>
+    [] s = "zb" -> <<"z", "b">>
+    [] s = "zc" -> <<"z", "c">>
+    [] s = "zg" -> <<"z", "g">>
+    [] s = "zh" -> <<"z", "h">>
+    [] s = "zs" -> <<"z", "s">>
+    [] s = "zt" -> <<"z", "t">>
+    [] s = "zy" -> <<"z", "y">>
+    [] s = "zz" -> <<"z", "z">>
     [] s = "abc" -> <<"a", "b", "c">>
     [] s = "sca" -> <<"s", "c", "a">>
     [] s = "tac" -> <<"t", "a", "c">>
     [] s = "hbs" -> <<"h", "b", "s">>
     [] s = "gcy" -> <<"g", "c", "y">>
+    [] s = "zaz" -> <<"z", "a", "z">>
 
 CIdx == 1..MaxC
 S(i) == ToString(i)
@@ -260,7 +280,7 @@ Fresh(s) == [s EXCEPT !.obs = <<>>, !.post = <<>>]
 \* the lock was not free for TryLockAwait
 NotReady(s, w) ==
   LET c == s.wk[w].c IN
-  IF Form(s, c) \in {"t", "y"} THEN AddObs([s EXCEPT !.wk[w].pc = "next_round", !.tryfails[c] = @ + 1], "tryfail", S(c))
+  IF Form(s, c) \in {"t", "y", "z"} THEN AddObs([s EXCEPT !.wk[w].pc = "next_round", !.tryfails[c] = @ + 1], "tryfail", S(c))
   ELSE Goto(s, w, "al_l")
 
 \* result of the operation at the visible point of worker w: [s, a, o, loc, old, new, ok, site]
